@@ -8,6 +8,7 @@
                through a copying sanitizer (dict(...), list(...), .copy()); values are serialised by cloudpickle only
   4 rebuild    load_outputs / load_xarray_dataset get their store from RunInfo.load(...).init_store(), which rebuilds
                the arrays from the recorded shapes/masks in the constructor's argument order
+  6 byte-codec every reader of pickled run-folder files undoes the byte-level transforms (compression, encoding) the writers apply
   5 persist    _maybe_persist_memory is reached synchronously on every normal exit of both drivers, persists every
                StorageBase of the store, and every storage class whose dump does not write a file overrides persist;
                masks of reloaded arrays come from what is stored, never from the loaded values
@@ -467,8 +468,45 @@ def rule_persist(ctx: Ctx) -> None:  # noqa: C901
             "FileArray.to_array derives the mask from the loaded values: a stored None reloads as missing", key="mask-from-files")
 
 
+def rule_byte_codec(ctx: Ctx) -> None:
+    """Every reader of pickled run-folder files undoes exactly the byte-level transforms the writers apply.  The element files are
+    written by ONE primitive and read by several (the generic loader, the bulk reader of FileArray that unpickles raw bytes
+    itself, ...): a compression / encoding step added to the writer is invisible to a reader that was not taught it."""
+    P = ctx.prog
+    TRANSFORMS = ("gzip", "zlib", "bz2", "lzma", "base64", "zstandard", "zstd", "lz4", "blosc", "codecs")
+
+    def mods(fn_: FuncInfo) -> set[str]:
+        out = set()
+        for c in ast.walk(fn_.node):
+            if isinstance(c, ast.Call):
+                head = dotted(c.func).split(".")[0]
+                full = P.resolve_name(fn_.module, head, fn_).split(".")[0] if head else ""
+                if full in TRANSFORMS:
+                    out.add(full)
+        return out
+
+    writers, readers = [], []
+    for mn in ("pipefunc._utils", "pipefunc.map"):
+        for fn_ in P.functions.values():
+            if not (fn_.module.name == mn or fn_.module.name.startswith(mn + ".")):
+                continue
+            names = {dotted(c.func) for c in walk_no_nested(fn_.node) if isinstance(c, ast.Call)}
+            if names & {"cloudpickle.dump", "cloudpickle.dumps", "pickle.dump", "pickle.dumps"}:
+                writers.append(fn_)
+            if names & {"cloudpickle.load", "cloudpickle.loads", "pickle.load", "pickle.loads"}:
+                readers.append(fn_)
+    applied = {m for w in writers for m in mods(w)}
+    for r in readers:
+        undone = mods(r) | {m for s_ in ctx.cg.sites.get(r.qualname, []) for c in s_.callees if c.module.name.startswith(("pipefunc._utils", "pipefunc.map")) for m in mods(c)}
+        ctx.add("6-byte-codec", r, r.node, applied <= undone, f"{r.name} unpickles what the writers pickle (byte-level transforms on both sides: {sorted(applied) or 'none'})" if applied <= undone else
+                f"the writer(s) {sorted(w.name for w in writers if mods(w))} pass the pickle through {sorted(applied - undone)} before it reaches the file, but {r.name} hands the file's bytes to the unpickler as they are: "
+                "outputs written that way cannot be reloaded through this reader (UnpicklingError)", key=f"byte-codec {r.name}")
+    ctx.floor("6-byte-codec.readers", len(readers), 2)
+    ctx.floor("6-byte-codec.writers", len(writers), 1)
+
+
 def check(ctx: Ctx) -> None:
-    for rule in (rule_table, rule_fresh_load, rule_paths, rule_path_names, rule_process, rule_rebuild, rule_persist):
+    for rule in (rule_table, rule_fresh_load, rule_paths, rule_path_names, rule_process, rule_rebuild, rule_persist, rule_byte_codec):
         ctx.run(rule)
 
 
